@@ -496,7 +496,22 @@ class FSModel:
         else:
             raise Unsupported(f"os.remove({loc!r})")
 
-    def x_rmtree(self, interp, loc):
+    def x_rmtree(self, interp, loc, ignore_errors=False, onerror=None, **kw):
+        """shutil.rmtree; with ignore_errors=True every OSError is swallowed: the call returns normally, whatever was (not) removed"""
+        if onerror is not None or kw:
+            raise Unsupported("rmtree with an error handler")
+        if isinstance(ignore_errors, Sym):
+            raise Unsupported("rmtree with a symbolic ignore_errors")
+        if not ignore_errors:
+            return self._rmtree(interp, loc)
+        try:
+            return self._rmtree(interp, loc)
+        except RaiseSignal as r:
+            if isinstance(r.exc, OSError):
+                return None
+            raise
+
+    def _rmtree(self, interp, loc):
         """multi-step: removes entries one by one; may fail after having removed any subset"""
         ex, fs = interp.ex, self.fs
         if isinstance(loc, LJob):
